@@ -42,7 +42,8 @@ def gen_kitchen(r: random.Random, profile: str = "kitchen") -> Dict[str, Any]:
         pairs.append(["M0", "M1", r.choice([0.3, -0.4, 0.8])])
     if n >= 3 and r.random() < 0.5:
         pairs.append(["M1", "M2", r.choice([0.2, -0.2])])
-    w.cfg["simulation"]["fundamentalCorrelations"] = {"pairwise": pairs}
+    if r.random() < 0.65:
+        w.cfg["simulation"]["fundamentalCorrelations"] = {"pairwise": pairs}
     allm = comps + ["IDX"]
     w.add_scripted("SA", r.randint(1, 3), False)
     w.add_scripted("SH", (r.randint(0, 2) or 1) if profile != "crowd" else r.choice([2, 20, 70]), True)
@@ -138,6 +139,26 @@ def subprocess_digest(scn: Dict[str, Any], hash_seed: int) -> str:
     raise RuntimeError("digest subprocess failed: " + p.stderr[-500:])
 
 
+def variants_of(scn: Dict[str, Any]) -> List[Dict[str, Any]]:
+    out = []
+    v = copy.deepcopy(scn)
+    sim = v["config"]["simulation"]
+    if "fundamentalCorrelations" in sim:
+        del sim["fundamentalCorrelations"]
+    else:
+        names = [m for m in sim["markets"] if v["config"][m].get("fundamentalVolatility")]
+        if len(names) >= 2:
+            sim["fundamentalCorrelations"] = {"pairwise": [[names[0], names[1], 0.8]]}
+    out.append(v)
+    v = copy.deepcopy(scn)
+    v["runner_seed"] = scn["runner_seed"] + 7
+    for k, e in v["config"].items():
+        if isinstance(e, dict) and "enabled" in e:
+            e["enabled"] = not e["enabled"]
+    out.append(v)
+    return out
+
+
 def run_c07(scn: Dict[str, Any], on, plugins=()) -> Dict[str, Any]:
     from .monitor import Monitor
     res = new_result()
@@ -152,10 +173,17 @@ def run_c07(scn: Dict[str, Any], on, plugins=()) -> Dict[str, Any]:
         random.seed(a)
         _np.random.seed(b)
         runs[f"global_seed_{i}"] = execute(scn)["digest"]
-    # (3) after an unrelated run in the same process
+    # (3) after other runs in the same process: an unrelated scenario, and *variants of this one* (state leaking
+    # between runs is usually keyed on identifiers, so near-identical configurations are the dangerous ones):
+    # correlations toggled, another runner seed, events disabled
     other = gen_kitchen(seeds.rng("c07-unrelated", scn["runner_seed"]))
     execute(other)
-    runs["after_unrelated_run"] = execute(scn)["digest"]
+    for variant in variants_of(scn):
+        try:
+            execute(variant)
+        except Exception:
+            pass
+    runs["after_unrelated_run_and_variants"] = execute(scn)["digest"]
     # (4) fresh interpreters under other hash seeds
     n_sub = int(scn.get("n_subprocess", 2))
     for hs in (envn.get("hash_seeds") or [0, 1])[:n_sub]:
